@@ -21,8 +21,9 @@ STAR_RUNS = {"quick": 20000, "thorough": 1000000}
 RULE = ("seeded graphs with 1..12 vertices incl. isolated ones (G(n,p), stars, paths, complete graphs, forests; node "
         "and edge attributes; arbitrary labels), phi in {0, 2^-53, 0.1, 0.3, 0.5, 0.9, 1-2^-53, 1}, float schedules "
         "uniform / extreme (0.0, 2^-53, 1-2^-53) / lo / hi / mix; non-trivial = graph has >= 1 edge; distinct = distinct "
-        "execution digests.  Star law: N*S-1 ~ Binomial(M, phi) on stars with M leaves under uniform decisions, "
-        "rigorous KL bound")
+        "execution digests.  Exact law: on a catalogue of small (multi)graphs - stars, multi-spoke stars, disjoint edges, two "
+        "stars, fragments larger than the giant, triangle plus path - the distribution of N*S under uniform decisions vs the "
+        "exact law from enumerating all edge subsets, rigorous KL bound")
 ASSUMPTIONS = ["phi=1 and phi=0 end points are exact for every legal draw in [0,1)",
                "star law tested with i.i.d. uniform decisions; false-alarm probability < 1e-12 per test"]
 REAL = ["gcmpy.tools.bond_percolate.bond_percolate", "networkx connected_components"]
@@ -149,22 +150,77 @@ def shrink(sc):
         yield dict(sc, attrs=False)
 
 
-# ---- star law -------------------------------------------------------------------------------------
+# ---- exact law on small graphs ----------------------------------------------------------------------------------
+# Stars were the first instance; the same oracle works for ANY small (multi)graph: enumerate every edge subset, weight it
+# phi^k (1-phi)^(m-k), tabulate the largest component.  Disconnected graphs matter: there the VALUE is not pinned down by
+# the end points, the lattice or the bound.
+def _star(M, k=1):
+    return [[0, i] for i in range(1, M + 1) for _ in range(k)]
+
+
 def star_scenarios(seed, tier):
-    out = [("M4-phi0.3", 4, 0.3, 1), ("M6-phi0.5", 6, 0.5, 1), ("M3-phi0.9", 3, 0.9, 1), ("M8-phi0.1", 8, 0.1, 1),
-           ("M4-phi0.5-doubled", 4, 0.5, 2), ("M5-phi0.3-tripled", 5, 0.3, 3)]
+    cat = [("star-M4-phi0.3", _star(4), 5, 0.3), ("star-M6-phi0.5", _star(6), 7, 0.5), ("star-M3-phi0.9", _star(3), 4, 0.9),
+           ("star-M8-phi0.1", _star(8), 9, 0.1), ("star-M4-doubled-phi0.5", _star(4, 2), 5, 0.5),
+           ("star-M5-tripled-phi0.3", _star(5, 3), 6, 0.3),
+           ("two-disjoint-edges-phi0.5", [[0, 1], [2, 3]], 4, 0.5),
+           ("two-stars-phi0.5", _star(4) + [[5, 6], [5, 7], [5, 8], [5, 9]], 10, 0.5),
+           ("six-disjoint-edges-and-two-isolated-phi0.3", [[2 * i, 2 * i + 1] for i in range(6)], 14, 0.3),
+           ("triangle-plus-path-phi0.7", [[0, 1], [1, 2], [0, 2], [3, 4], [4, 5], [5, 6]], 7, 0.7),
+           ("small-giant-large-fragments-phi0.6", [[0, 1], [0, 2], [0, 3], [0, 4], [5, 6], [6, 7], [7, 8], [9, 10], [10, 11], [11, 9]], 12, 0.6)]
     if tier == "thorough":
-        out += [("M10-phi0.7", 10, 0.7, 1), ("M2-phi0.5", 2, 0.5, 1), ("M5-phi0.05", 5, 0.05, 1), ("M6-phi0.2-doubled", 6, 0.2, 2)]
-    return [(t, {"M": m, "phi": p, "k": k}) for t, m, p, k in out]
+        cat += [("star-M10-phi0.7", _star(10), 11, 0.7), ("star-M2-phi0.5", _star(2), 3, 0.5), ("star-M5-phi0.05", _star(5), 6, 0.05),
+                ("star-M6-doubled-phi0.2", _star(6, 2), 7, 0.2),
+                ("three-triangles-phi0.4", [[3 * i + a, 3 * i + b] for i in range(3) for a, b in ((0, 1), (1, 2), (0, 2))], 9, 0.4)]
+        from ..simrandom import _RealRandom
+        from ..engine import h64
+        prng = _RealRandom(h64("C18-graphs", seed))
+        for i in range(4):
+            n = prng.randrange(4, 10)
+            es = [[a, b] for a in range(n) for b in range(a + 1, n) if prng.random() < 0.25][:11]
+            if es:
+                cat.append((f"random-{i}", es, n, prng.choice((0.2, 0.5, 0.8))))
+    return [(t, {"edges": es, "n": n, "phi": p}) for t, es, n, p in cat]
+
+
+def _graph(sc):
+    G = nx.MultiGraph() if len({frozenset(e) for e in sc["edges"]}) < len(sc["edges"]) else nx.Graph()
+    G.add_nodes_from(range(sc["n"]))
+    G.add_edges_from(tuple(e) for e in sc["edges"])
+    return G
+
+
+def exact_law(sc):
+    """{largest component size: probability} under independent retention with probability phi."""
+    es, n, phi = sc["edges"], sc["n"], sc["phi"]
+    m = len(es)
+    out = {}
+    for mask in range(1 << m):
+        parent = list(range(n))
+
+        def find(x):
+            while parent[x] != x:
+                parent[x] = parent[parent[x]]
+                x = parent[x]
+            return x
+        k = 0
+        for i in range(m):
+            if mask >> i & 1:
+                k += 1
+                a, b = find(es[i][0]), find(es[i][1])
+                if a != b:
+                    parent[a] = b
+        sizes = {}
+        for v in range(n):
+            r = find(v)
+            sizes[r] = sizes.get(r, 0) + 1
+        big = max(sizes.values())
+        out[big] = out.get(big, 0.0) + phi ** k * (1 - phi) ** (m - k)
+    return out
 
 
 def dist_runs(sc, base_seed, tag, start, stop):
-    M = sc["M"]
-    G = nx.star_graph(M)
-    if sc.get("k", 1) > 1:
-        G = nx.MultiGraph(G)
-        for _ in range(sc["k"] - 1):
-            G.add_edges_from([(0, i) for i in range(1, M + 1)])
+    G = _graph(sc)
+    n = sc["n"]
     cnt = Counter()
     digs = set()
     dec = 0
@@ -173,7 +229,7 @@ def dist_runs(sc, base_seed, tag, start, stop):
         try:
             with simrandom.using(src):
                 S = bond_percolate(G, sc["phi"])
-            cnt[round(S * (M + 1)) - 1] += 1
+            cnt[round(S * n)] += 1
         except Exception as e:
             cnt[("raised", describe_exc(e))] += 1
         digs.add(h64(tuple(src.log)))
@@ -183,18 +239,15 @@ def dist_runs(sc, base_seed, tag, start, stop):
 
 
 def judge_star(sc, counts, n):
-    M, phi = sc["M"], sc["phi"]
     for key in counts:
         if isinstance(key, tuple):
             return [("C18.raised", f"bond_percolate raised {key[1]}")]
-    mult = sc.get("k", 1)
-    q = 1.0 - (1.0 - phi) ** mult          # a leaf stays attached iff at least one of its parallel spokes is retained
-    exp = {k: math.comb(M, k) * q ** k * (1 - q) ** (M - k) for k in range(M + 1)}
+    exp = exact_law(sc)
     bad = stats.frequency_test(counts, exp, n)
     if bad:
         c, q, p, st, thr = max(bad, key=lambda b: b[3])
-        return [("C18.star", f"star with {M} leaves ({mult} parallel spoke(s) each), phi={phi}: P(N*S-1={c}) observed {q:.5f}, Binomial gives {p:.5f} "
-                             f"over {n} runs (n*KL={st:.1f} >= {thr:.1f})")]
+        return [("C18.star", f"graph with {sc['n']} vertices and edges {sc['edges'][:8]}{'...' if len(sc['edges']) > 8 else ''}, phi={sc['phi']}: "
+                             f"P(N*S={c}) observed {q:.5f}, independent retention gives {p:.5f} over {n} runs (n*KL={st:.1f} >= {thr:.1f})")]
     return []
 
 
